@@ -145,7 +145,7 @@ class ProcModel:
 
 
 def subprocess_model(eng=None):
-    m = types.SimpleNamespace()
+    m = ModelNS()
     m.PIPE = -1
     m.TimeoutExpired = TimeoutExpired
     m.CalledProcessError = type('CalledProcessError', (Exception, ), {})
@@ -169,11 +169,33 @@ def subprocess_model(eng=None):
     return m
 
 
+class ModelNS(types.SimpleNamespace):
+    """Namespace of an environment model: an attribute the model does not
+    define is a gap of the model ('unsupported'), not an AttributeError of
+    the program under verification."""
+
+    def __getattr__(self, name):
+        if name.startswith('__') and name.endswith('__'):
+            raise AttributeError(name)
+        if name in self.__dict__.get('_absent', ()):
+            # modelled as absent on this platform (hasattr() is False)
+            raise AttributeError(name)
+        raise sym.Unsupported(f'environment model has no attribute {name!r}')
+
+
 def resource_model(with_prlimit=True):
-    m = types.SimpleNamespace()
+    m = ModelNS()
+    import resource as _real
+    for nm_ in dir(_real):
+        # every limit the platform knows (a limit other than the address
+        # space / CPU time one does not bound what the property speaks of)
+        if nm_.startswith('RLIMIT_'):
+            setattr(m, nm_, nm_)
     m.RLIMIT_AS = 'RLIMIT_AS'
     m.RLIMIT_CPU = 'RLIMIT_CPU'
     m.RLIM_INFINITY = 'RLIM_INFINITY'
+    if not with_prlimit:
+        m._absent = ('prlimit', )
 
     def setrlimit(res, lim):
         p = cur()
@@ -194,7 +216,7 @@ def resource_model(with_prlimit=True):
 
 
 def time_model():
-    m = types.SimpleNamespace()
+    m = ModelNS()
 
     def time_():
         p = cur()
